@@ -54,7 +54,10 @@ pub fn c16(tier: &str, seed: u64) -> Vec<Case> {
             other.ttl = other.ttl.wrapping_add(1 + rep as u32);
             other.cache_flush = !other.cache_flush;
             let third = g.rr_of(kind);
-            for (a, b) in [(&built, &other), (&built, &borrowed), (&built, &third)] {
+            // the same record in another class is another record, for every kind (OPT included)
+            let mut other_class = built.clone();
+            other_class.class = if built.class == CLASS::IN { CLASS::CH } else { CLASS::IN };
+            for (a, b) in [(&built, &other), (&built, &borrowed), (&built, &third), (&built, &other_class)] {
                 let (eq, heq) = (a == b, h(a) == h(b));
                 let mut set = HashSet::new();
                 set.insert(a.clone());
@@ -109,6 +112,23 @@ pub fn c16(tier: &str, seed: u64) -> Vec<Case> {
         if eq && !heq { c = c.fail("eq-hash", "records whose entries are the same in another order compare equal but hash differently".into()); }
         if eq != set.contains(&other) { c = c.fail("hashset-lookup", "set membership disagrees with equality".into()); }
         v.push(c);
+    }
+    // values only the wire can produce (independent of the library's builders): reference encodings of
+    // AliasMode SVCB / HTTPS records with parameters, NSEC with empty and zero-padded bitmaps, TXT with
+    // empty strings, an OPT-typed record outside the additional section
+    for rd_text in ["F 64 3 i 0 n 1 x61 t 2 1 x026832 3 x01bb", "F 65 3 i 0 n 2 x61 x62 t 1 3 x01bb", "F 64 3 i 0 n 0 t 0",
+                    "F 47 2 n 1 x61 t 2 0 x 1 x00", "F 47 2 n 1 x61 t 2 0 x4000 3 x010000", "F 16 1 s 3 x61 x x62", "F 16 1 s 1 x", "O 512 0 1 10 x0102"] {
+        let ptxt = format!("P 7 32768 0 0 o0 0 2 n 1 x74 1 5 0 F 1 1 i 9 n 1 x74 1 5 0 {} 0 0", rd_text);
+        let (wire, _) = crate::refenc::encode_packet(&ptxt, crate::refenc::Compress::Never, false, None);
+        let parsed = match std::panic::catch_unwind(|| Packet::parse(&wire).ok().map(|p| p.answers.into_iter().map(|r| (r.clone(), r.into_owned())).collect::<Vec<_>>())) {
+            Ok(Some(x)) => x, _ => continue };
+        for (orig, owned) in parsed {
+            let mut c = Case::new(format!("owned.rr {}", text::rr(&orig)), text::rr(&owned)).tag("wire-only-value");
+            if !(owned == orig) || text::rr(&owned) != text::rr(&orig) || h(&owned) != h(&orig) || h(&owned.rdata) != h(&orig.rdata) || plain_bytes(&owned) != plain_bytes(&orig) {
+                c = c.fail("into-owned-eq", format!("the owned copy of a received record ({}) is another value", rd_text));
+            }
+            v.push(c);
+        }
     }
     // values only construction from parts can produce: a supported type spelled as `Unknown(code)`, and
     // opaque data of length zero; equality, hashing, set membership and the owned copy must agree
